@@ -346,16 +346,17 @@ SignificantBin(l) ==
 (*   { "slatepack": "1.0", "mode": 1, ["encrypted_meta": {..},]            *)
 (*     "payload": "<base64 of the age file, padded>" }                     *)
 (* Regions: j_ver, j_mode, j_meta (inside the braces of encrypted_meta),   *)
-(* j_pl (the base64 digits), j_pad (the '=' after them), j_struct (all     *)
-(* the rest).  Character classes: "g" base64 digit, "p" '=', "w" JSON      *)
+(* j_pl (the base64 digits), j_last (the last digit when padding follows:  *)
+(* 2 or 4 of its bits are not payload and libwallet's base64 0.9 ignores   *)
+(* them), j_pad (the '=' after the digits), j_struct (all the rest).  Character classes: "g" base64 digit, "p" '=', "w" JSON      *)
 (* whitespace, "q" '"', "x" other.                                         *)
 (* Havoc_JsonSyntax: what serde_json makes of an edit outside the payload  *)
 (* digits (ignored unknown key, blank, broken syntax, another version,     *)
 (* mode 0) is not modelled: "same" or "err".                               *)
 (***************************************************************************)
-JsonRegions == {"j_ver", "j_mode", "j_meta", "j_pl", "j_pad", "j_struct"}
+JsonRegions == {"j_ver", "j_mode", "j_meta", "j_pl", "j_last", "j_pad", "j_struct"}
 \* an edit that changes the base64 digits of the payload, hence the bytes of the age file
-\* (the decoder rejects a last digit with stray bits, so no two digit strings give the same bytes)
+\* (edits of j_last may leave the bytes as they are and are not counted)
 SignificantJson(l) ==
   CASE l.k = "sub" -> l.r = "j_pl" /\ l.o = "g"
     [] l.k = "del" -> l.r = "j_pl" /\ l.o = "g"
